@@ -539,6 +539,7 @@ def run(rep, tier, seed, only=None):
     rep.bounds = {"inputs": "n<=3 (thorough: 60 configurations with n=4, r<=3)", "outputs": "<=2", "gate budget": "r<=4 (n=3: r<=3)", "bases": "AIG/XAIG/FULL as enum and str + 7 custom operation lists",
                   "don't-cares": "every pattern for n<=2 with one output; seeded otherwise", "constraints": "none, each kind alone, seeded combinations (<=2)"}
     rep.outside = ["the circuit_db shortcut (excluded by the property)", "r > 4, n > 3", "real PySAT solvers (stub: z3, contract sound+complete)"]
+    rep.bounds['rejected calls / shared state'] = '30 (quick) / 120 (thorough) configurations with an ill-ordered fix_gate / forbid_wire call that the caller catches; stock bases compared with their pristine value after every configuration'
     rep.rule = "case = configuration (model table, budget, basis, normalisation, constraints); the candidate netlist and all value variables are quantified by z3"
     rep.explanation = "A and B unsat => the CNF's models are exactly the admissible circuits; find_circuit compared with z3 on the specification; decoder driven with several distinct models"
     rnd = random.Random(seed)
